@@ -70,7 +70,8 @@ def validate(chk, progs, name="sem", batches=None, timeout=1500, invariants=("Se
     usable = [p for p in progs if "run" in p and p["run"]["ok"]]
     if not usable:
         return 0, 0
-    batches = batches or min(NCPU, max(1, len(usable) // 3))
+    # at most ~1500 executions per TLC run (memory), at least one run per core when there is enough work
+    batches = batches or max(min(NCPU, max(1, len(usable) // 3)), (len(usable) + 1499) // 1500)
     groups = [usable[i::batches] for i in range(batches)]
     d = rundir(chk.pid, name + "_in")
     cfg = ("SPECIFICATION TSpec\nINVARIANT %s \nCONSTRAINT Progress\nPOSTCONDITION Accepted\n"
@@ -99,7 +100,7 @@ def validate(chk, progs, name="sem", batches=None, timeout=1500, invariants=("Se
             if r2.violated != r.violated:
                 raise Broken("trace verdict not repeatable: %s vs %s" % (r.violated, r2.violated))
         return r, tp, ap, g, bounds, k
-    with ThreadPoolExecutor(max_workers=batches) as ex:
+    with ThreadPoolExecutor(max_workers=min(batches, NCPU)) as ex:
         results = list(ex.map(one, range(len(groups))))
     accepted = 0
     events = 0
@@ -144,7 +145,7 @@ def refine(chk, th, progs, name="refine", limit=4000, timeout=1500):
     sel = [(p, got[i]["prog"]) for i, p in enumerate(progs) if i in got and got[i]["ok"]]
     if not sel:
         return 0
-    nb = min(NCPU, max(1, len(sel) // 20))
+    nb = max(min(NCPU, max(1, len(sel) // 20)), (len(sel) + 399) // 400)
     d = rundir(chk.pid, name + "_in")
     from concurrent.futures import ThreadPoolExecutor
 
@@ -158,7 +159,7 @@ def refine(chk, th, progs, name="refine", limit=4000, timeout=1500):
             json.dump([pr for _, pr in part], f)
         cfg = "SPECIFICATION RSpec\nINVARIANT RefineOK SemTypeOK DepthBound\nCONSTRAINT Bounded\nCHECK_DEADLOCK FALSE\n"
         return tlc("TheoRefine", cfg, chk.pid, "%s%d" % (name, b), env={"ASTS": ap, "PROGS": pp, "REFLIMIT": limit}, workers=2, timeout=timeout, xmx="6g"), part
-    with ThreadPoolExecutor(max_workers=nb) as ex:
+    with ThreadPoolExecutor(max_workers=min(nb, NCPU // 2)) as ex:
         results = list(ex.map(one, range(nb)))
     for res, part in results:
         if res.timed_out or res.error:
